@@ -2,12 +2,18 @@ import Cose.Key.Impl
 import Cose.Key.Ec
 import Cose.Props.C11
 import Cose.Props.C12
+import Cose.Go.Roundtrip
 /-!
 # C17 — keys survive serialisation and always dispatch to their own algorithm
 
-* a CBOR (hence JSON / text, which wrap the same CBOR bytes in hex) round trip changes only the Go *kinds* of
-  integers (`int` ↦ `uint64` / `int64`) and the slice types; every accessor the library uses is insensitive
-  to that (`toInt_kind_insensitive`, `getBytes_kind_insensitive`, `ops_kind_insensitive`);
+* `key_survives_cbor`: for every key with distinct in-range labels and scalar / list members, in any entry order,
+  `UnmarshalCBOR(MarshalCBOR(k))` succeeds and the decoded key has the same kty, alg, (kty, alg, crv) triple —
+  hence the same registered implementation for each of the four kinds —, the same key_ops, key id, Base IV and the
+  same bytes under every byte-string member (`Cose/Go/Roundtrip.lean`: `cmap_roundtrip`).  JSON and text wrap the
+  same CBOR bytes in hex (`ByteStr`), tied by the spec op `dec.keyjson`;
+* the round trip changes only the Go *kinds* of integers (`int` ↦ `uint64` / `int64`) and the slice types; every
+  accessor the library uses is insensitive to that (`toInt_kind_insensitive`, `getBytes_kind_insensitive`,
+  `ops_kind_insensitive`);
 * dispatch looks only at the triple (kty, alg, crv) computed from those accessors; the registry — **regenerated
   from the `register.go` files** — is exactly the 24 algorithms in 28 registrations, without duplicates;
 * defaults when alg is absent; nil key and unregistered triples fail;
@@ -133,6 +139,138 @@ theorem encryptor_nonce_sizes (m : SymImpl) :
   have c : chachaNonceSize = 12 := by decide +kernel
   unfold SymImpl.nonceSize
   refine ⟨fun h => by simp [h, g], fun h => by simp [h, c], fun h => by simp [h]⟩
+
+/-! ## the CBOR round trip of a key -/
+
+theorem lookup_flat {k : Key} (hok : ∀ kv ∈ k, EntryOk kv) (hnd : (k.map (·.1)).Nodup) {l : Label} {v : GoVal}
+    (h : k.lookup l = some v) : Flat v :=
+  (hok (l, v) ((lookup_eq_some_iff k l v hnd).mp h)).2
+
+theorem toIntList_normS : ∀ (xs : List GoVal), (∀ x ∈ xs, Scalar x) → toIntList (xs.map normS) = toIntList xs
+  | [], _ => rfl
+  | x :: xs, h => by
+    have ih := toIntList_normS xs (fun y hy => h y (List.mem_cons_of_mem _ hy))
+    have hx : toInt (normS x) = toInt x := by
+      cases h x List.mem_cons_self with
+      | int k v _ hk => exact toInt_normInt k v hk
+      | bytes b _ => rfl
+      | bnil => rfl
+      | bstr b _ => rfl
+      | str s _ => rfl
+      | bool b => rfl
+      | nil => rfl
+    simp only [List.map_cons, toIntList, hx, ih]
+
+theorem toIntList_normInt : ∀ (xs : List Int), (∀ x ∈ xs, minInt32 ≤ x ∧ x ≤ maxInt32) →
+    toIntList (xs.map normInt) = some xs
+  | [], _ => rfl
+  | x :: xs, h => by
+    have ih := toIntList_normInt xs (fun y hy => h y (List.mem_cons_of_mem _ hy))
+    have hx := h x List.mem_cons_self
+    have : toInt (normInt x) = .ok x := by
+      rw [toInt_normInt .int x (fun hh => by cases hh)]
+      simp [toInt, IntKind.signed, hx.1, hx.2]
+    simp only [List.map_cons, toIntList, this, ih]
+
+/-- `Ops()` as a function of the member found under label 4 -/
+def opsOf : Option GoVal → Option (List Int)
+  | some (.ops xs) => some xs
+  | some (.ints xs) => some xs
+  | some (.list xs) => toIntList xs
+  | _ => none
+
+theorem ops_eq_opsOf (k : Key) : ops k = opsOf (k.lookup (lbl Iana.KeyParameterKeyOps)) := by
+  unfold ops
+  generalize k.lookup (lbl Iana.KeyParameterKeyOps) = o
+  cases o with
+  | none => rfl
+  | some v => cases v <;> rfl
+
+theorem opsOf_normInt (v : Int) : opsOf (some (normInt v)) = none := by unfold normInt; split <;> rfl
+
+/-- key_ops lists given as `key.Ops` / `[]int` hold operation numbers (any int32 would do) -/
+def OpsInRange (k : Key) : Prop :=
+  ∀ xs, (k.lookup (lbl Iana.KeyParameterKeyOps) = some (.ops xs) ∨ k.lookup (lbl Iana.KeyParameterKeyOps) = some (.ints xs)) →
+    ∀ x ∈ xs, minInt32 ≤ x ∧ x ≤ maxInt32
+
+theorem opsOf_normV {v : GoVal} (h : Flat v)
+    (hr : ∀ xs, (v = .ops xs ∨ v = .ints xs) → ∀ x ∈ xs, minInt32 ≤ x ∧ x ≤ maxInt32) :
+    opsOf (some (normV v)) = opsOf (some v) := by
+  cases h with
+  | scalar v hs =>
+    cases hs with
+    | int k v _ _ => rw [normV_int, opsOf_normInt]; rfl
+    | bytes b _ => rfl
+    | bnil => rfl
+    | bstr b _ => rfl
+    | str s _ => rfl
+    | bool b => rfl
+    | nil => rfl
+  | ints xs hx _ => exact toIntList_normInt xs (hr xs (Or.inr rfl))
+  | ops xs hx _ => exact toIntList_normInt xs (hr xs (Or.inl rfl))
+  | list xs hx _ => exact toIntList_normS xs hx
+
+/-- **a key survives its CBOR form**: decoding the encoding of a key succeeds and the result is interchangeable with
+    the original for everything the library does with a key — same kty, alg, dispatch triple (hence the same
+    registered Signer / Verifier / MACer / Encryptor), same key_ops, and the same octets under every byte-string
+    parameter (k, d, x, y, kid, Base IV, …). -/
+theorem key_survives_cbor (k : Key) (hok : ∀ kv ∈ k, EntryOk kv) (hnd : (k.map (·.1)).Nodup)
+    (hlen : k.length ≤ Cose.Cbor.maxElems) (hops : OpsInRange k) :
+    ∃ b k', encodeCMap k = some b ∧ decodeCMap b = .ok k' ∧ k'.length = k.length ∧
+      (∀ l, getInt (k'.lookup l) = getInt (k.lookup l)) ∧
+      (∀ l, k.lookup l ≠ some .bnil → getBytes (k'.lookup l) = getBytes (k.lookup l)) ∧
+      kty k' = kty k ∧ alg k' = alg k ∧ tripleKey k' = tripleKey k ∧
+      (∀ kind, registered kind (tripleKey k') = registered kind (tripleKey k)) ∧
+      ops k' = ops k := by
+  obtain ⟨b, k', henc, hdec, hl, hlook⟩ := cmap_roundtrip k hok hnd hlen
+  have hint : ∀ l, getInt (k'.lookup l) = getInt (k.lookup l) := by
+    intro l
+    rw [hlook l]
+    cases h : k.lookup l with
+    | none => rfl
+    | some v => exact getInt_normV (lookup_flat hok hnd h)
+  have hbytes : ∀ l, k.lookup l ≠ some .bnil → getBytes (k'.lookup l) = getBytes (k.lookup l) := by
+    intro l hn
+    rw [hlook l]
+    cases h : k.lookup l with
+    | none => rfl
+    | some v => exact getBytes_normV (lookup_flat hok hnd h) (fun e => hn (by rw [h, e]))
+  have hkty : kty k' = kty k := by unfold kty; rw [hint]
+  have halg : alg k' = alg k := by unfold alg; rw [hint, hint]
+  have htriple : tripleKey k' = tripleKey k := by unfold tripleKey; rw [hkty, halg, hint]
+  refine ⟨b, k', henc, hdec, hl, hint, hbytes, hkty, halg, htriple, fun kind => by rw [htriple], ?_⟩
+  rw [ops_eq_opsOf, ops_eq_opsOf, hlook]
+  cases h : k.lookup (lbl Iana.KeyParameterKeyOps) with
+  | none => rfl
+  | some v =>
+    refine opsOf_normV (lookup_flat hok hnd h) ?_
+    intro xs hv x hx
+    rcases hv with rfl | rfl
+    · exact hops xs (Or.inl h) x hx
+    · exact hops xs (Or.inr h) x hx
+
+/-- a sample key: HMAC 256/256 with kid and key_ops -/
+def sampleKey : Key :=
+  [(lbl 1, .int .int 4), (lbl 3, .int .alg 5), (lbl 2, .bytes [1, 2]), (lbl 4, .ops [9, 10]), (lbl (-1), .bytes (List.replicate 32 7))]
+
+-- non-vacuity: the sample key meets every hypothesis of `key_survives_cbor`
+example : (∀ kv ∈ sampleKey, EntryOk kv) ∧ (sampleKey.map (·.1)).Nodup ∧ sampleKey.length ≤ Cose.Cbor.maxElems ∧
+    OpsInRange sampleKey ∧ kty sampleKey = 4 := by
+  refine ⟨?_, by decide, by decide, ?_, by decide⟩
+  · intro kv h
+    simp only [sampleKey, List.mem_cons, List.mem_nil_iff, or_false] at h
+    rcases h with rfl | rfl | rfl | rfl | rfl
+    · exact ⟨by decide, .scalar _ (.int _ _ (by decide) (by intro h; cases h))⟩
+    · exact ⟨by decide, .scalar _ (.int _ _ (by decide) (by intro h; cases h))⟩
+    · exact ⟨by decide, .scalar _ (.bytes _ (by decide))⟩
+    · exact ⟨by decide, .ops _ (by intro x hx; simp at hx; rcases hx with rfl | rfl <;> decide) (by decide)⟩
+    · exact ⟨by decide, .scalar _ (.bytes _ (by decide))⟩
+  · intro xs h x hx
+    have e : sampleKey.lookup (lbl Iana.KeyParameterKeyOps) = some (.ops [9, 10]) := by rfl
+    rw [e] at h
+    rcases h with h | h
+    · cases h; simp at hx; rcases hx with rfl | rfl <;> decide
+    · cases h
 
 /-- **look-up by key id returns an entry whose key id is exactly equal, or none** (`KeySet.Lookup`) -/
 def keySetLookup (ks : List Key) (kidv : Option Bytes) : Option Key :=
